@@ -260,7 +260,7 @@ type chunkPre struct {
 
 func (r *runner) chunkBefore(wasClosed bool) chunkPre {
 	p := chunkPre{logs: map[uint64]bool{}}
-	if wasClosed || r.real.db == "" {
+	if wasClosed || r.real.db == "" || os.Getenv("VERIF_C14_NOCHUNK") != "" {
 		return p
 	}
 	p.writer = r.ask("writer")
@@ -483,7 +483,7 @@ func firstDiff(a, b []byte) int {
 // chunkScanDir compares, for every log of the real directory that changed since the last call, Pebble's
 // reader with the model's and the bytes with the model's writer.
 func (r *runner) chunkScanDir(step string) {
-	if r.real.db == "" || r.failed {
+	if r.real.db == "" || r.failed || os.Getenv("VERIF_C14_NOCHUNK") == "2" {
 		return
 	}
 	wd := walDirOf(r.real.db)
@@ -503,11 +503,14 @@ func (r *runner) chunkScanDir(step string) {
 		if err != nil {
 			continue
 		}
-		if sz, ok := r.chunkSeen[num]; ok && sz == fi.Size() {
+		prev, seen := r.chunkSeen[num]
+		if seen && prev == fi.Size() {
 			continue
 		}
 		r.chunkSeen[num] = fi.Size()
-		if fi.Size() > 3*chunkB && r.rng.Intn(4) != 0 {
+		// a long log that grows flush by flush: look at it when a block boundary has been crossed and otherwise
+		// now and then, so that the cost stays linear in its length
+		if fi.Size() > 2048 && prev/chunkB == fi.Size()/chunkB && r.rng.Intn(int(fi.Size()/1024)) != 0 {
 			continue
 		}
 		content, err := os.ReadFile(filepath.Join(wd, name))
